@@ -1,10 +1,16 @@
-"""C03 harnesses: tokenizer / tag dissection / verbatim emitters on shape-enumerated,
-character-symbolic strings.  Every harness returns True iff the property holds."""
-from chameleon import tokenize as tk
+"""C03 harnesses: tokenizer / tag dissection / verbatim emitters / newline normalisation on
+shape-enumerated, character-symbolic strings.  Every harness returns True iff the property holds
+for its arguments (``post: _``); ``CFG`` is filled by the driver per job."""
+import re
+
+from chameleon import compiler as cc
 from chameleon import parser as ps
+from chameleon import tokenize as tk
+from chameleon.exc import TemplateError
+from chameleon.zpt import program as zp
+from chameleon.zpt import template as zt
 
 CFG = {}
-MAXU = 0x110000
 
 
 def build(shape, cs):
@@ -18,8 +24,10 @@ def build(shape, cs):
     return s
 
 
+# ------------------------------------------------------------------------------------------------
+# seeded in-memory mutants of the code under test (vacuity/mutation guard, DESIGN.md 3.5)
+# ------------------------------------------------------------------------------------------------
 def _mutate(name):
-    import re
     if name == 'TextSE_narrow':       # lexer no longer accepts '&' in text
         tk.re_xml_spe = re.compile(tk.collector.res['XML_SPE'].replace('[^<]+|', '[^<&]+|', 1))
     elif name == 'iter_xml_pos':      # token position off by one after the first token
@@ -29,10 +37,36 @@ def _mutate(name):
             for match in tk.re_xml_spe.finditer(body):
                 yield real(match.group(), match.start() and match.start() + 1, body, filename)
         tk.iter_xml = iter_xml
-    elif name == 'attr_space_lost':
-        ps.match_single_attribute = re.compile(
-            ps.match_single_attribute.pattern.replace(r'(?P<space>\s+)', r'\s*(?P<space>\s)', 1),
-            re.UNICODE | re.DOTALL)
+    elif name == 'attr_space_collapsed':   # whitespace before an attribute collapses to one blank
+        real_mt = ps.match_tag
+
+        def match_tag(token, regex=ps.match_tag_prefix_and_name):
+            d = real_mt(token, regex)
+            for a in d['attrs']:
+                if len(a['space']) > 1:
+                    a['space'] = a['space'][:1]
+            return d
+        ps.match_tag = match_tag
+    elif name == 'end_space_doubled':      # End emitter writes the blank before '>' twice
+        def visit_End(self, node):
+            yield cc.EmitText(node.prefix + node.name + node.space + node.suffix)
+        cc.Compiler.visit_End = visit_End
+    elif name == 'attr_quote_normalised':  # Attribute emitter always writes double quotes
+        real_va = cc.Compiler.visit_Attribute
+
+        def visit_Attribute(self, node):
+            if node.quote == "'":
+                node.quote = '"'
+            return real_va(self, node)
+        cc.Compiler.visit_Attribute = visit_Attribute
+    elif name == 'crlf_only':              # lone CR no longer normalised
+        src = zt.PageTemplate.parse
+        import inspect
+        import textwrap
+        code = textwrap.dedent(inspect.getsource(src)).replace(".replace('\\r', '\\n')", "")
+        ns = dict(src.__globals__)
+        exec(code, ns)
+        zt.PageTemplate.parse = ns['parse']
     else:
         raise KeyError(name)
 
@@ -42,6 +76,13 @@ def prepare(cfg):
         _mutate(cfg['mutant'])
 
 
+def _res(ok):
+    return (not ok) if CFG.get('negate') else ok
+
+
+# ------------------------------------------------------------------------------------------------
+# (2) iter_xml tiles its input
+# ------------------------------------------------------------------------------------------------
 def tiles(s):
     pos = 0
     out = ''
@@ -57,10 +98,6 @@ def tiles(s):
     return out == s and pos == len(s)
 
 
-def _res(ok):
-    return (not ok) if CFG.get('negate') else ok
-
-
 def tok_tiles(c0: int, c1: int, c2: int, c3: int, c4: int, c5: int) -> bool:
     """
     pre: 0 <= c0 < 0x110000 and 0 <= c1 < 0x110000 and 0 <= c2 < 0x110000
@@ -70,3 +107,247 @@ def tok_tiles(c0: int, c1: int, c2: int, c3: int, c4: int, c5: int) -> bool:
     cs = (c0, c1, c2, c3, c4, c5)
     s = build(CFG['shape'], cs)
     return _res(tiles(s))
+
+
+# ------------------------------------------------------------------------------------------------
+# (3) tag dissection tiles every tag token
+# ------------------------------------------------------------------------------------------------
+# Reference "well-formed tag" grammar used only to delimit the known-finding class
+# malformed_attribute_syntax (tags whose attribute list is not well-formed HTML/XML attribute
+# syntax -- e.g. a quote inside an unquoted value, an unterminated quoted value -- are dissected by
+# match_tag with gaps, i.e. text is silently dropped).  The claim stays in force for every tag that
+# *is* well-formed by this grammar, whatever its characters.
+_WF_NAME = r"""[^\s=/>"'<]+"""
+_WF_ATTR = r"""[ \n\t\r]+%s(?:[ \n\t\r]*=[ \n\t\r]*(?:"[^"]*"|'[^']*'|[^\s"'=<>`]+))?""" % _WF_NAME
+_WF_TAG = re.compile(r"""</?%s(?:%s)*[ \n\t\r]*/?>\Z""" % (_WF_NAME, _WF_ATTR))
+
+
+def known_excluded(s):
+    """Known-finding classes (see known_findings.jsonl); conjoined negatively to the claim."""
+    ex = CFG.get('exclude') or ()
+    if 'malformed_attribute_syntax' in ex:
+        for t in tk.iter_xml(s):
+            if t.startswith('<') and not t.startswith('<!') and not t.startswith('<?') \
+                    and t.endswith('>'):
+                if _WF_TAG.match(t) is None:
+                    return True
+    if 'unterminated_end_tag' in ex:
+        for t in tk.iter_xml(s):
+            if t.startswith('</') and not t.endswith('>'):
+                return True
+    return False
+
+
+def tag_pieces(t):
+    """Returns None if ``t`` is not a tag token, False if the real match_tag cannot dissect it
+    (the front end then rejects the document), else the concatenation of the dissected pieces."""
+    kind = ps.identify(t)
+    if kind not in ('start_tag', 'empty_tag', 'end_tag'):
+        return None
+    if ps.match_tag_prefix_and_name.match(t) is None:
+        return False
+    d = ps.match_tag(t)
+    if d['suffix'] is None:
+        return False
+    out = d['prefix'] + d['name']
+    for a in d['attrs']:
+        out = out + a['space'] + a['name'] + a['eq'] + a['quote'] + a['value'] + a['quote']
+    out = out + d['suffix']
+    return out
+
+
+def tag_tiles_ok(s):
+    for t in tk.iter_xml(s):
+        try:
+            r = tag_pieces(t)
+        except TemplateError:
+            continue
+        if r is None or r is False:
+            continue
+        if r != t:
+            return False
+    return True
+
+
+def tag_tiles(c0: int, c1: int, c2: int, c3: int) -> bool:
+    """
+    pre: 0 <= c0 < 0x110000 and 0 <= c1 < 0x110000 and 0 <= c2 < 0x110000 and 0 <= c3 < 0x110000
+    post: _
+    """
+    s = build(CFG['shape'], (c0, c1, c2, c3))
+    ok = tag_tiles_ok(s)
+    if not ok and known_excluded(s):   # evaluated lazily: only failing paths pay for the matcher
+        ok = True
+    return _res(ok)
+
+
+# ------------------------------------------------------------------------------------------------
+# (4) front end + verbatim emitters reproduce statement-free markup
+# ------------------------------------------------------------------------------------------------
+class _NoEngine:
+    """Stand-in for ExpressionTransform: statement-free documents contain no expression except the
+    ``attrs`` alias of static attributes, which is irrelevant to the emitted text."""
+    cache = {}
+
+    def __call__(self, expression, target):
+        return []
+
+
+def _compiler():
+    c = object.__new__(cc.Compiler)
+    c._scopes = [set()]
+    c._expression_cache = {}
+    c._translations = []
+    c._builtins = {}
+    c._aliases = [{}]
+    c._macros = []
+    c._current_slot = []
+    c._engine = _NoEngine()
+    return c
+
+
+class _Program(zp.MacroProgram):
+    def _create_static_attributes(self, prepared):   # repr()+parse(): C boundary, feeds 'attrs' only
+        return None
+
+
+def emit_text(body, **kw):
+    """real tokenizer -> ElementParser -> MacroProgram.visit_* -> Compiler.visit_* ; returns the
+    concatenated EmitText or None when something other than text would be emitted."""
+    prog = _Program(body, 'xml', '<string>', escape=True, boolean_attributes=frozenset(), **kw)
+    c = _compiler()
+    out = ''
+    for node in prog.body:
+        for st in c.visit(node):
+            if isinstance(st, cc.EmitText):
+                out = out + st.s
+            elif isinstance(st, cc.Comment):
+                continue
+            else:
+                return None
+    return out
+
+
+def marked(s):
+    return ('${' in s) or ('$$' in s) or ('<!--!' in s) or ('<!--?' in s) or ('<?python' in s)
+
+
+def undissectable(s):
+    for t in tk.iter_xml(s):
+        try:
+            if tag_pieces(t) is False:
+                return True
+        except TemplateError:
+            return True
+    return False
+
+
+def verbatim_ok(s):
+    """C03: *if the document compiles* it renders to itself.  A rejection is in order when a tag
+    token cannot be dissected, when a TemplateError is raised, or for an undefined namespace prefix;
+    any other exception on a document whose tags all dissect is a failure."""
+    if marked(s):
+        return True
+    try:
+        out = emit_text(s)
+    except TemplateError:
+        return True
+    except KeyError as exc:
+        return 'Undefined namespace prefix' in str(exc)
+    except (TypeError, AttributeError):
+        return undissectable(s)
+    if out is None:
+        return False
+    return out == s
+
+
+def verbatim(c0: int, c1: int, c2: int, c3: int) -> bool:
+    """
+    pre: 0 <= c0 < 0x110000 and 0 <= c1 < 0x110000 and 0 <= c2 < 0x110000 and 0 <= c3 < 0x110000
+    post: _
+    """
+    s = build(CFG['shape'], (c0, c1, c2, c3))
+    ok = verbatim_ok(s)
+    if not ok and known_excluded(s):
+        ok = True
+    return _res(ok)
+
+
+# ------------------------------------------------------------------------------------------------
+# (5) CR / CRLF -> LF outside XML mode, identity in XML mode  (real PageTemplate.parse)
+# ------------------------------------------------------------------------------------------------
+class _Capture(Exception):
+    pass
+
+
+class _FakeTemplate:
+    boolean_attributes = None
+    mode = 'xml'
+    filename = '<string>'
+    default_marker = None
+    implicit_i18n_translate = False
+    implicit_i18n_attributes = set()
+    trim_attribute_space = False
+    enable_data_attributes = False
+    enable_comment_interpolation = True
+    restricted_namespace = True
+    tokenizer = None
+
+
+def _parse_body(s, xml):
+    captured = []
+
+    def fake_program(body, *a, **kw):
+        captured.append(body)
+        return None
+    real = zt.MacroProgram
+    zt.MacroProgram = fake_program
+    try:
+        t = _FakeTemplate()
+        t.content_type = 'text/xml' if xml else 'text/html'
+        zt.PageTemplate.parse(t, s)
+    finally:
+        zt.MacroProgram = real
+    return captured[0]
+
+
+def ref_newlines(s):
+    out = ''
+    i = 0
+    n = len(s)
+    while i < n:
+        ch = s[i]
+        if ch == '\r':
+            out = out + '\n'
+            if i + 1 < n and s[i + 1] == '\n':
+                i += 1
+        else:
+            out = out + ch
+        i += 1
+    return out
+
+
+def newlines(c0: int, c1: int, c2: int, c3: int, xml: bool) -> bool:
+    """
+    pre: 0 <= c0 < 0x110000 and 0 <= c1 < 0x110000 and 0 <= c2 < 0x110000 and 0 <= c3 < 0x110000
+    post: _
+    """
+    s = build(CFG['shape'], (c0, c1, c2, c3))
+    got = _parse_body(s, xml)
+    want = s if xml else ref_newlines(s)
+    return _res(got == want)
+
+
+def explain(cfg, *args):
+    s = build(cfg['shape'], args)
+    info = {'input': s}
+    try:
+        info['tokens'] = [str(t) for t in tk.iter_xml(s)]
+        info['tag_pieces'] = [tag_pieces(t) for t in tk.iter_xml(s)]
+    except Exception as exc:
+        info['tag_pieces_exc'] = repr(exc)
+    try:
+        info['emitted'] = emit_text(s)
+    except Exception as exc:
+        info['emit_exc'] = repr(exc)
+    return info
